@@ -48,6 +48,9 @@ func inputs(seed uint64, tier string, n int) [][2]string {
 		parts = 1
 	}
 	var out [][2]string
+	for i, s := range hs.Always() {
+		out = append(out, [2]string{fmt.Sprintf("pinned:%d", i), s})
+	}
 	for i, s := range corpus {
 		if parts > 1 && uint64(i)%uint64(parts) != seed%uint64(parts) {
 			continue
@@ -123,10 +126,13 @@ func seqCase(id, src string, cfg hs.Cfg) caseObs {
 type lineReader struct {
 	src       string
 	off       int
-	delivered int // bytes handed out so far
+	delivered int      // bytes handed out so far
+	yielded   int      // statements handed out in complete batches so far (maintained by the callback loop)
+	snaps     [][2]int // at every Read entry: (bytes delivered, statements handed out)
 }
 
 func (l *lineReader) Read(p []byte) (int, error) {
+	l.snaps = append(l.snaps, [2]int{l.delivered, l.yielded})
 	if l.off >= len(l.src) {
 		return 0, io.EOF
 	}
@@ -149,7 +155,7 @@ type event struct {
 	Err        string
 }
 
-func interRun(src string, cfg hs.Cfg, pipe bool) (evs []event, panicked string, hung bool) {
+func interRun(src string, cfg hs.Cfg, pipe bool) (evs []event, snaps [][2]int, panicked string, hung bool) {
 	done := make(chan struct{})
 	go func() {
 		defer close(done)
@@ -185,11 +191,17 @@ func interRun(src string, cfg hs.Cfg, pipe bool) (evs []event, panicked string, 
 			ev.Stmts = append(ev.Stmts, stmts...)
 			if lr != nil {
 				ev.Delivered = lr.delivered
+				if err == nil && !ev.Incomplete {
+					lr.yielded += len(stmts)
+				}
 			}
 			evs = append(evs, ev)
 			if len(evs) > 100000 {
 				break
 			}
+		}
+		if lr != nil {
+			snaps = lr.snaps
 		}
 	}()
 	select {
@@ -245,7 +257,7 @@ func interCase(id, src string, cfg hs.Cfg) caseObs {
 	}
 	o.Valid = perr == nil
 	o.NStmt = len(f.Stmts)
-	evs, pan, hung := interRun(src, cfg, false)
+	evs, snaps, pan, hung := interRun(src, cfg, false)
 	if hung {
 		o.Fails = append(o.Fails, "interactive_hangs")
 		return o
@@ -256,7 +268,7 @@ func interCase(id, src string, cfg hs.Cfg) caseObs {
 		return o
 	}
 	// the same through a real blocking pipe: identical event sequence
-	evp, pan2, hung2 := interRun(src, cfg, true)
+	evp, _, pan2, hung2 := interRun(src, cfg, true)
 	if hung2 || pan2 != "" {
 		o.Fails = append(o.Fails, "interactive_pipe_hangs_or_panics")
 	} else {
@@ -304,7 +316,7 @@ func interCase(id, src string, cfg hs.Cfg) caseObs {
 				if e2 != nil || p2 != "" {
 					continue
 				}
-				evs2, pan2, hung2 := interRun(src2, cfg, false)
+				evs2, _, pan2, hung2 := interRun(src2, cfg, false)
 				if pan2 != "" || hung2 {
 					continue
 				}
@@ -319,6 +331,26 @@ func interCase(id, src string, cfg hs.Cfg) caseObs {
 					break
 				}
 			}
+		}
+	}
+	// promptness: when the reader is asked for the line after boundary d and the text up to d is a complete program of k
+	// statements (Parse of that prefix succeeds), those k statements have all been handed out already
+	seenB := map[int]bool{}
+	for _, sn := range snaps {
+		d := sn[0]
+		if d <= 0 || d > len(src) || seenB[d] || src[d-1] != '\n' || endsInEscapedNewline(src[:d]) {
+			continue
+		}
+		seenB[d] = true
+		pf, pe, pp := parseRef(src[:d], cfg)
+		if pp != "" || pe != nil {
+			continue
+		}
+		if sn[1] != len(pf.Stmts) {
+			o.Fails = append(o.Fails, "interactive_batch_not_handed_over_at_line_end")
+			o.Note += fmt.Sprintf(" [after %d bytes %q is a complete program of %d statements, %d handed out when the next line is requested]",
+				d, trunc(src[:d], 60), len(pf.Stmts), sn[1])
+			break
 		}
 	}
 	// Incomplete only while a statement is open (geometry of the final tree)
@@ -544,7 +576,8 @@ func reuseCase(id string, r *rand.Rand, corpus []string, src string) []caseObs {
 	if pp == "" && perr == nil {
 		setName := hx.Pick(r, hs.PrinterSetNames)
 		po := caseObs{Mode: "reuse-printer", ID: id, Hex: hx.Hex(src), Lang: test.Cfg.Lang.String(), Valid: true}
-		want, wantErr, wp := printWith(syntax.NewPrinter(hs.PrinterSets[setName]...), f)
+		testNode := pickNode(r, f)
+		want, wantErr, wp := printWith(syntax.NewPrinter(hs.PrinterSets[setName]...), testNode)
 		if wp == "" {
 			used := syntax.NewPrinter(hs.PrinterSets[setName]...)
 			k := r.IntN(5)
@@ -553,15 +586,15 @@ func reuseCase(id string, r *rand.Rand, corpus []string, src string) []caseObs {
 			histPanic := false
 			for i := 0; i < k; i++ {
 				hsrc := corpus[r.IntN(len(corpus))]
+				if r.IntN(3) == 0 {
+					hsrc = hx.Pick(r, printerDirty)
+				}
 				hl := hx.Pick(r, hs.Langs)
 				hf, herr, hp := parseRef(hsrc, hs.Cfg{Lang: hl, Keep: true, Recover: r.IntN(3)})
 				if hp != "" || hf == nil {
 					continue
 				}
-				var node syntax.Node = hf
-				if len(hf.Stmts) > 0 && r.IntN(3) == 0 {
-					node = hf.Stmts[r.IntN(len(hf.Stmts))] // a lone statement
-				}
+				node := pickNode(r, hf) // the file, a lone statement, command, word, word part or assignment
 				kind := "ok"
 				if herr != nil {
 					kind = "partial-tree"
@@ -578,7 +611,7 @@ func reuseCase(id string, r *rand.Rand, corpus []string, src string) []caseObs {
 				}
 				hist = append(hist, fmt.Sprintf("%s:%q", kind, trunc(hsrc, 50)))
 			}
-			got, gotErr, gp := printWith(used, f)
+			got, gotErr, gp := printWith(used, testNode)
 			if !histPanic {
 				if gp != "" {
 					po.Fails = append(po.Fails, "reused_printer_panics")
@@ -588,13 +621,122 @@ func reuseCase(id string, r *rand.Rand, corpus []string, src string) []caseObs {
 					po.Note = fmt.Sprintf("fresh=%q reused=%q", trunc(want, 120), trunc(got, 120))
 				}
 				if len(po.Fails) > 0 {
-					po.Note += " opts=" + setName + " history=" + strings.Join(hist, " ; ")
+					po.Note += fmt.Sprintf(" node=%T opts=%s history=%s", testNode, setName, strings.Join(hist, " ; "))
 				}
 			}
 			out = append(out, po)
 		}
 	}
 	return out
+}
+
+// printable: the node kinds Printer.Print supports, collected from a tree: the file, statements, commands, words, word
+// parts, assignments.
+func printable(f *syntax.File) (out []syntax.Node) {
+	out = append(out, f)
+	syntax.Walk(f, func(n syntax.Node) bool {
+		switch n.(type) {
+		case *syntax.Stmt, syntax.Command, *syntax.Word, syntax.WordPart, *syntax.Assign:
+			if len(out) < 400 {
+				out = append(out, n)
+			}
+		}
+		return true
+	})
+	return out
+}
+
+// pickNode: the file itself, or (half of the time) one of its printable sub-nodes, commands preferred.
+func pickNode(r *rand.Rand, f *syntax.File) syntax.Node {
+	if r.IntN(2) == 0 {
+		return f
+	}
+	all := printable(f)
+	if r.IntN(2) == 0 {
+		var cmds []syntax.Node
+		for _, n := range all {
+			if _, ok := n.(syntax.Command); ok {
+				cmds = append(cmds, n)
+			}
+		}
+		if len(cmds) > 0 {
+			return cmds[r.IntN(len(cmds))]
+		}
+	}
+	return all[r.IntN(len(all))]
+}
+
+// earlier printer inputs that end in every statement terminator / leave every kind of pending state
+var printerDirty = []string{"a &", "a &\n", "a |& b", "a &|", "a &!", "a;", "a; b &", "{ a & }", "(a &)", "a | b &", "if a; then b & fi", "a # c", "a <<E\nx\nE", "a <<E &\nx\nE",
+	"for i in a; do b & done", "case x in a) b & ;; esac", "f() { a & }", "a && b &", "! a &", "a >f &", "x=1 &", "[[ a ]] &", "((1)) &", "time a &", "a \\\n b &", "$(a &)", "`a &`", "a &\n# c"}
+
+// printerCross (fixed enumeration): every "dirty" earlier input (one per statement terminator / pending state) x every
+// printable node of every catalogue construct: Print(history) then Print(node) on one Printer must equal a fresh Printer's output.
+func printerCross(o hx.Opts) {
+	sets := []string{"default", hs.PrinterSetNames[1+int(o.Seed)%(len(hs.PrinterSetNames)-1)]}
+	if o.Tier == "thorough" {
+		sets = hs.PrinterSetNames
+	}
+	type tn struct {
+		src  string
+		node syntax.Node
+	}
+	var targets []tn
+	for _, c := range hs.Catalogue {
+		for _, l := range []syntax.LangVariant{syntax.LangBash, syntax.LangZsh, syntax.LangMirBSDKorn} {
+			f, err, pp := parseRef(c, hs.Cfg{Lang: l, Keep: true})
+			if pp != "" || err != nil {
+				continue
+			}
+			nodes := printable(f)
+			if len(nodes) > 12 {
+				nodes = nodes[:12]
+			}
+			for _, n := range nodes {
+				targets = append(targets, tn{c, n})
+			}
+			break
+		}
+	}
+	for _, setName := range sets {
+		for _, d := range printerDirty {
+			hf, herr, hp := parseRef(d, hs.Cfg{Lang: syntax.LangBash, Keep: true})
+			if hp != "" || herr != nil {
+				continue
+			}
+			hs.SetCurrent("printer cross " + setName + " after " + d)
+			nfail, npair := 0, 0
+			for _, t := range targets {
+				want, wantErr, wp := printWith(syntax.NewPrinter(hs.PrinterSets[setName]...), t.node)
+				if wp != "" {
+					continue
+				}
+				used := syntax.NewPrinter(hs.PrinterSets[setName]...)
+				if _, _, p1 := printWith(used, hf); p1 != "" {
+					continue
+				}
+				got, gotErr, gp := printWith(used, t.node)
+				po := caseObs{Mode: "reuse-printer-cross", ID: "cross", Hex: hx.Hex(t.src), Lang: "bash", Valid: true, NStmt: 1}
+				if gp != "" {
+					po.Fails = append(po.Fails, "reused_printer_panics")
+				} else if got != want || gotErr != wantErr {
+					po.Fails = append(po.Fails, "reused_printer_output_differs")
+					po.Note = fmt.Sprintf("fresh=%q reused=%q node=%T opts=%s history=%q", trunc(want, 100), trunc(got, 100), t.node, setName, d)
+				}
+				npair++
+				if len(po.Fails) > 0 {
+					if nfail++; nfail > 3 {
+						continue
+					}
+				} else if npair%40 != 0 {
+					continue // passing pairs: every 40th is reported (NStmt carries the weight)
+				} else {
+					po.NStmt = 40
+				}
+				hx.Emit(po)
+			}
+		}
+	}
 }
 
 func trunc(s string, n int) string {
@@ -753,6 +895,7 @@ func fields(o hx.Opts) {
 	}
 	// probe inputs: erroring/truncated shapes first (they leave the most state behind), then corpus
 	probes := []string{"echo `a`", "a <<E\nb\nE\n", "[[ a =~ (b) ]]", "echo \"`a \\\"b\\\"`\"", "# c\nfoo # d\n", "", "a", "a=1 b\n", "foo\n", "`\\`a\\``", "\"\\\"`b`\"", "if a; then b; fi", "$((1+2))", "a $'b' c", "`a \\`b\\` c`"}
+	probes = append(probes, hs.Catalogue...) // one instance of every construct: every printing path is probed
 	for i := 0; i < nProbe; i++ {
 		probes = append(probes, corpus[r.IntN(len(corpus))])
 	}
@@ -816,23 +959,32 @@ func fields(o hx.Opts) {
 				continue
 			}
 			setName := hs.PrinterSetNames[pi%len(hs.PrinterSetNames)]
-			want, wantErr, wp := printWith(syntax.NewPrinter(hs.PrinterSets[setName]...), f)
-			if wp != "" {
-				continue
+			nodes := printable(f)
+			if len(nodes) > 14 {
+				nodes = append(nodes[:1:1], nodes[1+pi%3:15]...)
 			}
-			used := syntax.NewPrinter(hs.PrinterSets[setName]...)
-			if hf, herr, _ := parseRef("if a; then\n\tb <<E # c\nx\nE\nfi # d\n", hs.Cfg{Lang: syntax.LangBash, Keep: true}); herr == nil {
-				hx.Try(func() { used.Print(&failWriter{n: 7}, hf) })
+			for _, node := range nodes {
+				want, wantErr, wp := printWith(syntax.NewPrinter(hs.PrinterSets[setName]...), node)
+				if wp != "" {
+					continue
+				}
+				used := syntax.NewPrinter(hs.PrinterSets[setName]...)
+				if hf, herr, _ := parseRef("if a; then\n\tb <<E # c\nx\nE\nfi # d\n", hs.Cfg{Lang: syntax.LangBash, Keep: true}); herr == nil {
+					hx.Try(func() { used.Print(&failWriter{n: 7}, hf) })
+				}
+				if !syntax.VerifPoisonPrinter(used, fld.Name) {
+					row.Witness = "cannot poison"
+					break
+				}
+				got, gotErr, gp := printWith(used, node)
+				row.ProbeCases++
+				if gp != "" || got != want || gotErr != wantErr {
+					row.ProbeLive = true
+					row.Witness = fmt.Sprintf("%s %T of %q", setName, node, trunc(src, 60))
+					break
+				}
 			}
-			if !syntax.VerifPoisonPrinter(used, fld.Name) {
-				row.Witness = "cannot poison"
-				break
-			}
-			got, gotErr, gp := printWith(used, f)
-			row.ProbeCases++
-			if gp != "" || got != want || gotErr != wantErr {
-				row.ProbeLive = true
-				row.Witness = fmt.Sprintf("%s %q", setName, trunc(src, 60))
+			if row.ProbeLive || row.Witness == "cannot poison" {
 				break
 			}
 		}
@@ -889,7 +1041,7 @@ func traceCase(id, src string, cfg hs.Cfg) (t traceObs, ok bool) {
 		}
 	}
 	t.Events = evs
-	real, pan, hung := interRun(src, cfg, false)
+	real, _, pan, hung := interRun(src, cfg, false)
 	if pan != "" || hung {
 		return t, false
 	}
@@ -934,6 +1086,7 @@ func main() {
 			}
 		}
 	case "reuse":
+		printerCross(o)
 		corpus := hs.Corpus(4000)
 		ins := inputs(o.Seed, o.Tier, o.N)
 		r := hx.Rand(o.Seed, 802)
